@@ -14,12 +14,10 @@
 (***************************************************************************)
 EXTENDS Star, Json
 
-CONSTANTS Pairs,        \* set of <<doc, layout, id>> offered to Init
-          WriterDocs,   \* documents on which WriteText is enabled
-          Emit          \* BOOLEAN: print every ReadText transition
+CONSTANTS Emit          \* BOOLEAN: print every ReadText transition
 
-VARIABLES doc, lay, cid, pc, text, out, numbered
-vars == <<doc, lay, cid, pc, text, out, numbered>>
+VARIABLES doc, lay, cid, mode, pc, text, out, numbered
+vars == <<doc, lay, cid, mode, pc, text, out, numbered>>
 
 -----------------------------------------------------------------------------
 \* token alphabet (byte codes)
@@ -62,7 +60,6 @@ DocsOver(alpha, maxr) ==
     IN  {<<b>> : b \in one} \cup {<<a, b>> : a \in FixedFirst, b \in snd} \cup {<<a, b>> : a \in fst, b \in FixedSecond}
 
 QuickDocs == DocsOver({T1, Tab, Tdatax}, 1) \cup DocsOver({Tm25, Ta1}, 2)
-FullDocs == DocsOver({T1, Tm25, Tab, Tdatax}, 2) \cup DocsOver({T1em3, Ta1, T12ab}, 2)
 
 -----------------------------------------------------------------------------
 \* layouts
@@ -75,46 +72,65 @@ GPre == {<<>>, <<"blank", "comment">>}
 GBetween == {<<"blank">>, <<"comment">>, <<"ws", "icomment", "blank">>}
 GAfterName == {<<>>, <<"blank">>}
 GAfterLabels == {<<>>, <<"blank">>, <<"comment", "ws">>}
-GPost == {<<>>, <<"blank", "comment">>}
+GPost == {<<>>, <<"blank", "ws">>}
 GSuffix == {"none", "sp", "tab"}
 GSeps == {<<<<SP>>>>, <<<<TAB>>>>, <<<<SP, SP>>, <<TAB, SP>>>>}
 GLeadTrail == {<<<<>>, <<>>>>, <<<<SP>>, <<SP, TAB>>>>}
 
-FullLays == LaySet(GPre, GBetween, GAfterName, GAfterLabels, GPost, GSuffix, GSeps, GLeadTrail, BOOLEAN, BOOLEAN)
 \* two families: all gap combinations under a plain and a fancy token layout, all token layouts under two gap settings
 QuickLays ==
     LaySet(GPre, GBetween, GAfterName, GAfterLabels, GPost, {"sp"}, {<<<<TAB>>>>}, {<<<<>>, <<>>>>}, {FALSE}, {TRUE})
     \cup LaySet(GPre, GBetween, GAfterName, GAfterLabels, GPost, {"tab"}, {<<<<SP, SP>>, <<TAB, SP>>>>}, {<<<<SP>>, <<SP, TAB>>>>}, {TRUE}, {FALSE})
     \cup LaySet({<<>>}, {<<"blank">>}, {<<"blank">>}, {<<>>}, {<<>>}, GSuffix, GSeps, GLeadTrail, BOOLEAN, BOOLEAN)
-    \cup LaySet({<<"blank", "comment">>}, {<<"ws", "icomment", "blank">>}, {<<>>}, {<<"comment", "ws">>}, {<<"blank", "comment">>},
+    \cup LaySet({<<"blank", "comment">>}, {<<"ws", "icomment", "blank">>}, {<<>>}, {<<"comment", "ws">>}, {<<"blank", "ws">>},
                 GSuffix, GSeps, GLeadTrail, BOOLEAN, BOOLEAN)
 
-QuickPairs == {<<d, l, 0>> : d \in QuickDocs, l \in QuickLays}
-FullPairs == {<<d, l, 0>> : d \in FullDocs, l \in FullLays}
-MidPairs == {<<d, l, 0>> : d \in FullDocs, l \in QuickLays}
+\* a few layouts that together use every freedom at least once
+PlainLay == [pre |-> <<>>, between |-> <<"blank">>, afterName |-> <<"blank">>, afterLabels |-> <<>>, post |-> <<>>, suffix |-> "sp",
+             seps |-> <<<<TAB>>>>, lead |-> <<>>, trail |-> <<>>, crlf |-> FALSE, finalNL |-> TRUE]
+CoreLays == {PlainLay,
+             [PlainLay EXCEPT !.suffix = "none", !.afterLabels = <<"blank">>, !.seps = <<<<SP>>>>, !.finalNL = FALSE],
+             [PlainLay EXCEPT !.crlf = TRUE, !.trail = <<SP, TAB>>, !.lead = <<SP>>, !.seps = <<<<SP, SP>>, <<TAB, SP>>>>],
+             [PlainLay EXCEPT !.pre = <<"blank", "comment">>, !.between = <<"comment">>, !.afterName = <<>>,
+                              !.afterLabels = <<"comment", "ws">>, !.post = <<"blank", "ws">>, !.suffix = "tab"],
+             [PlainLay EXCEPT !.between = <<"ws", "icomment", "blank">>, !.crlf = TRUE, !.finalNL = FALSE, !.post = <<"blank", "ws">>,
+                              !.suffix = "none", !.trail = <<SP, TAB>>],
+             [PlainLay EXCEPT !.pre = <<"blank", "comment">>, !.afterLabels = <<"blank">>, !.seps = <<<<SP, SP>>, <<TAB, SP>>>>,
+                              !.lead = <<SP>>, !.suffix = "tab", !.crlf = TRUE]}
+
+KeyDocs == {<<a, b>> : a \in FixedFirst, b \in FixedSecond}
+           \cup {<<[name |-> NameParticles, labels |-> Labels2, rows |-> <<<<T1em3, T12ab>>, <<T1, Tm25>>>>]>>}
 
 -----------------------------------------------------------------------------
 None == [ok |-> FALSE, blocks |-> <<>>]
 
-Init == /\ \E p \in Pairs : doc = p[1] /\ lay = p[2] /\ cid = p[3]
-        /\ pc = "start" /\ text = <<>> /\ out = None /\ numbered = FALSE
+Start == pc = "start" /\ text = <<>> /\ out = None /\ numbered = FALSE
 
-ReadText == /\ pc = "start"
+\* scope: every document under the core layouts, the key documents under every layout, every document through the writer
+InitOver(docs, lays) ==
+    /\ cid = 0
+    /\ \/ doc \in docs /\ lay \in CoreLays /\ mode = "read"
+       \/ doc \in KeyDocs /\ lay \in lays /\ mode = "read"
+       \/ doc \in docs /\ lay = PlainLay /\ mode = "write"
+    /\ Start
+
+QuickInit == InitOver(QuickDocs, QuickLays)
+
+ReadText == /\ pc = "start" /\ mode = "read"
             /\ text' = Render(doc, lay)
             /\ out' = Parse(text')
             /\ pc' = "read"
-            /\ UNCHANGED <<doc, lay, cid, numbered>>
+            /\ UNCHANGED <<doc, lay, cid, mode, numbered>>
 
-WriteText == /\ pc = "start" /\ doc \in WriterDocs
+WriteText == /\ pc = "start" /\ mode = "write"
              /\ \E nb \in BOOLEAN :
                   /\ numbered' = nb
                   /\ text' = WriterShape(doc, nb)
              /\ out' = Parse(text')
              /\ pc' = "written"
-             /\ UNCHANGED <<doc, lay, cid>>
+             /\ UNCHANGED <<doc, lay, cid, mode>>
 
 Next == ReadText \/ WriteText
-Spec == Init /\ [][Next]_vars
 
 -----------------------------------------------------------------------------
 C02_GrammarUnambiguous ==
@@ -152,6 +168,15 @@ ASSUME /\ NumCanon(T1) = Cn(FALSE, <<1>>, 0)
        /\ NumCanon(<<48, 48, 55>>) = Cn(FALSE, <<7>>, 0)                          \* 007
        /\ NumCanon(<<49, 50, 48, 48>>) = Cn(FALSE, <<1, 2>>, 2)                   \* 1200
        /\ NumCanon(<<45, 48, 46, 48, 48, 49, 50, 51, 48>>) = Cn(TRUE, <<1, 2, 3>>, -5)   \* -0.001230
+ASSUME /\ RoundTo6(Cn(FALSE, <<1, 2, 3, 4, 5, 6, 5>>, -7)) = Cn(FALSE, <<1, 2, 3, 4, 5, 6>>, -6)       \* 0.1234565 (half, even)
+       /\ RoundTo6(Cn(TRUE, <<1, 2, 3, 4, 5, 7, 5>>, -7)) = Cn(TRUE, <<1, 2, 3, 4, 5, 8>>, -6)          \* -0.1234575 (half, odd)
+       /\ RoundTo6(Cn(FALSE, <<9, 9, 9, 9, 9, 9, 5>>, -7)) = Cn(FALSE, <<1>>, 0)                        \* 0.9999995 -> 1
+       /\ RoundTo6(Cn(FALSE, <<9, 9, 9, 9, 9, 9, 9, 6>>, -7)) = Cn(FALSE, <<1>>, 1)                     \* 9.9999996 -> 10
+       /\ RoundTo6(Cn(TRUE, <<1>>, -7)) = ZeroCanon /\ RoundTo6(Cn(FALSE, <<6>>, -7)) = Cn(FALSE, <<1>>, -6)
+       /\ RoundTo6(Cn(FALSE, <<4>>, -8)) = ZeroCanon /\ RoundTo6(Cn(FALSE, <<9>>, -8)) = ZeroCanon
+       /\ RoundTo6(Cn(TRUE, <<2, 1, 2, 3, 4, 5, 6, 7, 8, 9>>, -9)) = Cn(TRUE, <<2, 1, 2, 3, 4, 5, 7>>, -6)   \* -2.123456789
+       /\ RoundTo6(Cn(FALSE, <<1, 2, 0, 0, 0, 0, 0, 4>>, -7)) = Cn(FALSE, <<1, 2>>, -1)                 \* 1.20000004 -> 1.2
+       /\ RoundTo6(Cn(FALSE, <<1, 5>>, 19)) = Cn(FALSE, <<1, 5>>, 19) /\ RoundTo6(Cn(TRUE, <<2, 5>>, -1)) = Cn(TRUE, <<2, 5>>, -1)
 ASSUME /\ \A t \in NumToks \cup {<<43, 53>>, <<46, 53>>, <<53, 46>>, <<49, 69, 53>>, <<48, 46, 48>>} : IsNumeric(t)
        /\ \A t \in TextToks \cup {<<46>>, <<45>>, <<101, 53>>, <<49, 101>>, <<49, 101, 43>>, <<49, 46, 50, 46, 51>>,
                                   <<49, 101, 50, 101, 51>>, <<45, 45, 49>>, <<49, 45>>, <<49, 95, 48>>} : ~IsNumeric(t)
